@@ -28,6 +28,9 @@ pub struct Case {
     pub glr: bool,
     pub arrays: bool,
     pub inputs: Vec<InputTape>,
+    /// LR parser over the right-nulled table (`table_type(LALR_RN)`)
+    #[serde(default)]
+    pub rn: bool,
 }
 
 fn kind_of(mode: u8) -> Option<LayoutKind> {
@@ -86,11 +89,14 @@ pub fn inputs_of(c: &Case, spec: &GrammarSpec) -> Vec<String> {
 }
 
 fn cfg_a(c: &Case) -> Cfg {
+    if !c.glr && c.rn {
+        return Cfg::lr().with_table(crate::compile::TT::Rn);
+    }
     Cfg { algo: if c.glr { Algo::GLR } else { Algo::LR }, ..Cfg::lr() }
 }
 
 fn bcfg(c: &Case) -> BConfig {
-    BConfig { glr: c.glr, builder: 1, arrays: c.arrays, loc_info: false, fancy: false, custom_lexer: false, rn_table: false }
+    BConfig { glr: c.glr, builder: 1, arrays: c.arrays, loc_info: false, fancy: false, custom_lexer: false, rn_table: c.rn && !c.glr }
 }
 
 /// dump production index -> ProdKind discriminant
@@ -247,7 +253,7 @@ fn gen_cases(seed: u64, batch: usize, ngrammars: usize) -> Vec<Case> {
             }
         };
         for (glr, arrays) in [(false, false), (false, true), (true, false), (true, true)] {
-            v.push(Case { gram: gram.clone(), glr, arrays, inputs: inputs.clone() });
+            v.push(Case { gram: gram.clone(), glr, arrays, inputs: inputs.clone(), rn: false });
         }
     }
     // right-nullable literature shapes with low-priority EMPTY alternatives, GLR only: the
@@ -266,8 +272,10 @@ fn gen_cases(seed: u64, batch: usize, ngrammars: usize) -> Vec<Case> {
             let tape = proptest::collection::vec(proptest::num::u16::ANY, 24).new_tree(&mut runner).unwrap().current();
             gen::prioritise_against_empty(&mut spec, &mut Cursor::new(&tape), all_low);
             for arrays in [false, true] {
-                v.push(Case { gram: Gram::Bnf(spec.clone(), 0), glr: true, arrays, inputs: inputs.clone() });
+                v.push(Case { gram: Gram::Bnf(spec.clone(), 0), glr: true, arrays, inputs: inputs.clone(), rn: false });
             }
+            // the same right-nulled table under an LR parser (one layout per grammar)
+            v.push(Case { gram: Gram::Bnf(spec.clone(), 0), glr: false, arrays: k % 2 == 0, inputs: inputs.clone(), rn: true });
         }
     }
     v
@@ -380,7 +388,7 @@ pub fn run(tier: Tier, seed: u64, replay: Option<&Path>) -> RunResult {
             }
             st.sub();
             let layout = if c.arrays { "arrays" } else { "functions" };
-            let algo = if c.glr { "GLR" } else { "LR" };
+            let algo = if c.glr { "GLR" } else if c.rn { "LR(LALR_RN)" } else { "LR" };
             st.class(&format!("module-{layout}-{algo}"));
             let got: Vec<&str> = blocks.get(m).map(|b| b.lines().filter(|l| !l.is_empty()).collect()).unwrap_or_default();
             let mut bad: Option<(String, String)> = None;
@@ -429,7 +437,7 @@ pub fn run(tier: Tier, seed: u64, replay: Option<&Path>) -> RunResult {
         seed,
         st,
         failures,
-        "case = generated grammar (AST-shape-rich conflict-free grammars; conflicting BNF grammars, also with a Layout rule; overlapping terminals incl. a regex with top-level alternation) x {arrays, functions} x {LR, GLR}, generic builder. The real generated g.rs is compiled by rustc in a scratch crate next to a comparison module emitted by the harness (variant lists recovered from the generated file with syn) which queries PARSER_DEFINITION.actions for EVERY (state, token), goto for every (state, nonterminal) the table defines, expected_token_kinds for every state and longest_match/grammar_order, and parses 10..13 generated inputs with the generated parser; every answer must equal the rendering of the real table dump under the same settings and the parse results (tree with productions, token kinds and spans, solution count, error offset) must equal the dump-driven parse of engine A, hence be identical for both layouts. non-trivial = module with >= 6 states whose comparison was complete".into(),
+        "case = generated grammar (AST-shape-rich conflict-free grammars; conflicting BNF grammars, also with a Layout rule; overlapping terminals incl. a regex with top-level alternation) x {arrays, functions} x {LR, GLR; for the right-nullable family also LR over the LALR_RN table}, generic builder. The real generated g.rs is compiled by rustc in a scratch crate next to a comparison module emitted by the harness (variant lists recovered from the generated file with syn) which queries PARSER_DEFINITION.actions for EVERY (state, token), goto for every (state, nonterminal) the table defines, expected_token_kinds for every state and longest_match/grammar_order, and parses 10..13 generated inputs with the generated parser; every answer must equal the rendering of the real table dump under the same settings and the parse results (tree with productions, token kinds and spans, solution count, error offset) must equal the dump-driven parse of engine A, hence be identical for both layouts. non-trivial = module with >= 6 states whose comparison was complete".into(),
         vec![
             "rustc compiles the generated code; modules that do not compile are C11's subject (counted as discards)".into(),
             "undefined goto entries are not queried: the table gives no answer for them and both layouts panic by design".into(),
